@@ -111,7 +111,8 @@ Definition child_refs (d : adump) : list Z :=
     14 full view has the wrong size       15 singleton flag disagrees with content
     16 recorded level size differs from the forest's level size
     17 node at level 0                    18 quasi-reduced root edge below the top level
-    19 root edge to a handle that is neither a terminal nor a live node *)
+    19 root edge to a handle that is neither a terminal nor a live node
+    20 edge-valued forest: a terminal child other than the two terminals (0, -1) *)
 
 Definition check_node (d : adump) (n : anode) : list (nat * Z) :=
   let rel := d_rel d in
@@ -163,7 +164,11 @@ Definition check_node (d : adump) (n : anode) : list (nat * Z) :=
              | None => if a_sg n =? -1 then [] else [(15%nat, h)]
              end in
   let c17 := if 0 <? lpos rel (a_lvl n) then [] else [(17%nat, h)] in
-  c2 ++ c3 ++ c4 ++ c6 ++ c7 ++ c8 ++ c12 ++ c13 ++ c14 ++ c15 ++ c16 ++ c17.
+  let c20 := match lab with
+             | LMT => []
+             | _ => if forallb (fun e => -1 <=? snd e) fl then [] else [(20%nat, h)]
+             end in
+  c2 ++ c3 ++ c4 ++ c6 ++ c7 ++ c8 ++ c12 ++ c13 ++ c14 ++ c15 ++ c16 ++ c17 ++ c20.
 
 (** clause 5: references to primed-level singleton nodes *)
 Definition is_singleton_at (d : adump) (c : Z) (i : Z) : bool :=
@@ -239,6 +244,10 @@ Definition check_roots (d : adump) : list (nat * Z) :=
     | QR => if (r =? 0) || (lpos (d_rel d) (level_of d r) =? Z.of_nat (length (d_lsz d)))
             then [] else [(18%nat, r)]
     | _ => []
+    end ++
+    match d_lab d with
+    | LMT => []
+    | _ => if -1 <=? r then [] else [(20%nat, r)]
     end) (d_roots d).
 
 (** the domain description in the dump is well formed: every level has at
